@@ -28,13 +28,34 @@ def ne_te(rec):
     return (1e21, 5.0) if rec.get("regime") == "mixed" else (5e19, 50.0)
 
 
-def bvec(cs, bzero):
+VIEWS = {1: (1.0, 0.0, 0.0), 2: (-1.0, 0.0, 0.0), 3: (0.0, 1.0, 0.0)}
+EMITTER = {"d": ("deuterium", 0, (3, 2)), "c": ("carbon", 5, (8, 7))}
+
+
+def view_of(rec):
+    return VIEWS[rec.get("view", 1)]
+
+
+def emitter_of(rec):
+    from cherab.core.atomic import elements as E
+    name, q, tr = EMITTER[rec.get("emitter", "d")]
+    return getattr(E, name), q, tr
+
+
+def bvec(cs, bzero, view=1):
+    """field of strength BMAG at the angle class cs to the observation direction d: B = |B| (cos d + sin z^)"""
     from raysect.core import Vector3D
     if bzero:
         return Vector3D(0, 0, 0)
-    v = {1: (0, 0, 1), 2: (1, 0, 0), 3: (1, 1, 0), 4: (3, 4, 0)}[cs]
-    n = math.sqrt(sum(x * x for x in v))
-    return Vector3D(*[x * BMAG / n for x in v])
+    co = {1: 0.0, 2: 1.0, 3: math.sqrt(0.5), 4: 0.6}[cs]
+    si = math.sqrt(1.0 - co * co)
+    d = VIEWS[view]
+    if view == 1:
+        # the original lattice vectors (exact in floating point where possible)
+        v = {1: (0, 0, 1), 2: (1, 0, 0), 3: (1, 1, 0), 4: (3, 4, 0)}[cs]
+        n = math.sqrt(sum(x * x for x in v))
+        return Vector3D(*[x * BMAG / n for x in v])
+    return Vector3D(BMAG * co * d[0], BMAG * co * d[1], BMAG * si)
 
 
 def build(rec, pol=None):
@@ -42,6 +63,7 @@ def build(rec, pol=None):
     from raysect.core.math.function.float import Constant1D
     from cherab.core import Plasma, Species, Beam
     from cherab.core.atomic import Line, AtomicData, deuterium
+    el, q_, tr_ = emitter_of(rec)
     from cherab.core.atomic.zeeman import ZeemanStructure
     from cherab.core.distribution import Maxwellian
     from cherab.core.math import Constant3D, ConstantVector3D
@@ -50,12 +72,12 @@ def build(rec, pol=None):
     pol = pol or rec["pol"]
     m = rec["model"]
     p = Plasma()
-    p.b_field = ConstantVector3D(bvec(rec["cs"], rec["bzero"]))
+    p.b_field = ConstantVector3D(bvec(rec["cs"], rec["bzero"], rec.get("view", 1)))
     ne, te = ne_te(rec)
     p.electron_distribution = Maxwellian(Constant3D(ne), Constant3D(te), ConstantVector3D(Vector3D(0, 0, 0)), 9.1093837015e-31)
-    sp = Species(deuterium, 0, Maxwellian(Constant3D(1e18), Constant3D(float(rec["tsp"])), ConstantVector3D(Vector3D(*VEL)), 2.014 * 1.66053906660e-27))
+    sp = Species(el, q_, Maxwellian(Constant3D(1e18), Constant3D(float(rec["tsp"])), ConstantVector3D(Vector3D(*VEL)), el.atomic_weight * 1.66053906660e-27))
     p.composition = [sp]
-    line = Line(deuterium, 0, (3, 2))
+    line = Line(el, q_, tr_)
     ad = AtomicData()
     if m == "gaussian":
         return GaussianLine(line, LAM0, sp, p, ad), None
@@ -136,7 +158,8 @@ def positions(rec):
     """label -> central wavelength, from the documented shift formulas with CODATA constants"""
     from scipy import constants as K
     m = rec["model"]
-    dop = lambda lam, v=VEL: lam * (1.0 + v[0] / K.c)        # observation direction is +x
+    vlos = rec.get("doppler_units", 2) * 1.0e4               # flow component along the observation direction (spec: DopplerUnits)
+    dop = lambda lam: lam * (1.0 + vlos / K.c)               # noqa: E731
     hc = K.h * K.c / K.e * 1e9
     mub = K.physical_constants["Bohr magneton in eV/T"][0]
     pos = {"c": dop(LAM0)}
@@ -163,7 +186,7 @@ def sigma_of(rec):
     t = float(rec["tsp"])
     if t <= 0:
         return 0.0
-    s = LAM0 * math.sqrt(t * K.e / (deuterium.atomic_weight * K.atomic_mass)) / K.c
+    s = LAM0 * math.sqrt(t * K.e / (emitter_of(rec)[0].atomic_weight * K.atomic_mass)) / K.c
     if rec["model"] == "param_zeeman_triplet":
         s *= math.sqrt(1.0 + BETA * BETA * t ** (2 * GAMMA))
     return s
@@ -196,7 +219,7 @@ def run_model(rec, pol, lo, hi, bins):
     obj, beam = build(rec, pol)
     sp = Spectrum(lo, hi, bins)
     if beam is None:
-        out = obj.add_line(R0, Point3D(0.1, 0.2, 0.3), Vector3D(1, 0, 0), sp)
+        out = obj.add_line(R0, Point3D(0.1, 0.2, 0.3), Vector3D(*view_of(rec)), sp)
     else:
         out = obj.add_line(R0, Point3D(0, 0, 0.5), Point3D(0.1, 0.2, 0.3), Vector3D(0, 0, 1), Vector3D(1, 0, 0), sp)
     return [float(x) for x in out.samples]
@@ -215,7 +238,7 @@ def replay(rec, ctx):
     tag = f"{m}:{rec['pol']}"
 
     def bad(what, detail):
-        viol.append({"sig": f"{tag}:{what}", "detail": f"{detail} | cos2={rec['cos2']} bzero={rec['bzero']} T={rec['tsp']} broad={rec['broad']} regime={rec.get('regime')} window={rec['window']}"})
+        viol.append({"sig": f"{tag}:{what}", "detail": f"{detail} | cos2={rec['cos2']} bzero={rec['bzero']} T={rec['tsp']} broad={rec['broad']} regime={rec.get('regime')} view={rec.get('view')} emitter={rec.get('emitter')} window={rec['window']}"})
     pos = positions(rec)
     sigma = sigma_of(rec)
     lo, hi, bins = window(rec, pos, sigma)
@@ -242,9 +265,10 @@ def replay(rec, ctx):
                 want[i] += R0 * w * gauss_bin(ctr, sigma, a, b)
         scale = R0 / dl
         worst = max(abs(g - w) for g, w in zip(got, want))
-        # 1e-9 of R / bin width, plus 1e-8 of the largest bin: the component positions come from two tables of physical
-        # constants (CODATA here, cherab's own in the code), which matters once a bin edge cuts through a line
-        if worst > 1e-9 * scale + 1e-8 * max(want):
+        # 1e-9 of R / bin width, plus 1e-7 of the largest bin: the component positions come from two vintages of physical
+        # constants (scipy's CODATA 2022 here; hc and the Bohr magneton of CODATA 2014/2018 in the code, 8e-9 apart), which
+        # moves a Zeeman component by ~5e-10 nm: visible at 3e-8 in the bins of a narrow (carbon) line
+        if worst > 1e-9 * scale + 1e-7 * max(want):
             i = max(range(bins), key=lambda j: abs(got[j] - want[j]))
             integral = sum(got) * dl
             bad("bins-differ-from-bin-averaged-profile", f"bin {i}: {got[i]!r} vs {want[i]!r}; integral {integral!r} vs {sum(want) * dl!r}")
@@ -266,7 +290,7 @@ def replay(rec, ctx):
         worst = max(abs(g - w) for g, w in zip(got, want))
         # bins tens of nm wide around a line a few hundredths of a nm wide: the adaptive quadrature's own accuracy (its
         # stopping rule compares successive orders) is what is left, 2e-3 as before; 1e-4 for resolved windows
-        tol = 2e-3 if dl > 1.0 else 1e-4
+        tol = 2e-3 if (dl > 1.0 or (fl > 0 and dl > fl)) else 1e-4      # bins wider than the Lorentzian itself: quadrature accuracy
         if worst > tol * max(max(want), 1e-300) + 1e-9 * R0 / dl:
             i = max(range(bins), key=lambda j: abs(got[j] - want[j]))
             bad("bins-differ-from-bin-averaged-pseudo-voigt", f"bin {i}: {got[i]!r} vs {want[i]!r}; integral {sum(got) * dl!r} vs {sum(want) * dl!r}")
@@ -304,7 +328,7 @@ def run(v):
     for r, vs in zip(cases, out):
         for x in vs:
             v.violation(x["sig"], x["detail"], r)
-    v.add_cases(len(cases), keys=[json.dumps({k: r[k] for k in ("model", "pol", "cs", "bzero", "tsp", "broad", "window", "regime")}, sort_keys=True) for r in cases])
+    v.add_cases(len(cases), keys=[json.dumps({k: r[k] for k in ("model", "pol", "cs", "bzero", "tsp", "broad", "window", "regime", "view", "emitter")}, sort_keys=True) for r in cases])
     from . import c02_quad
     c02_quad.run_part(v)
     v.sample(next(r for r in cases if r["model"] == "mse" and r["comps"]))
